@@ -39,6 +39,51 @@ def run(chk):
         chk.guard('guarded-dereference', '%s %s %s' % key, lambda: guards(chk, lab, key, pss, site))
     chk.floor('operation instances analysed', len(runs), 42)
     conversions(chk, lab)
+    chk.guard('occupancy-agreement', 'map_to', lambda: occupancy_agreement(chk))
+
+
+def occupancy_agreement(chk):
+    """Sibling agreement on what "the slot is free" means: for *arbitrary* slot contents (no PRESENT-or-zero invariant) the six
+    map_to variants must know the same bits of the old leaf-slot value to be zero when they overwrite it (today: all 64, the
+    is_unused test). A variant that decides occupancy by another predicate (say PRESENT only) would overwrite entries its
+    siblings refuse - the implementations would stop agreeing on PageAlreadyMapped."""
+    lab = MapperLab(chk, invariant=False)
+    known = {}
+    for impl in IMPLS:
+        for size in SIZES3:
+            fn_, pss = lab.run(impl, size, 'map_to_with_table_flags', map_args)
+            leaf = SM.LEAF_LEVEL[size]
+            zero = None
+            n = 0
+            for ps in pss:
+                if norm_result(ps)[0] != 'Ok':
+                    continue
+                ws = [s for s in ps.steps if s.k == 'write' and s.level == leaf]
+                if not ws:
+                    continue
+                # tables created on this path are zeroed: their slots are trivially free
+                if any(s.k == 'zero' and s.table == ws[-1].table for s in ps.steps):
+                    continue
+                old = ws[-1].old
+                z = frozenset(i for i, b in enumerate(old.bits) if b == 0) if isinstance(old, BV) else frozenset()
+                zero = z if zero is None else (zero & z)
+                n += 1
+            known[(impl, size)] = (zero, n, fn_)
+    chk.floor('map_to variants compared for their occupancy test', len([k for k, v in known.items() if v[1] > 0]), 6)
+    from collections import Counter
+    maj = Counter(v[0] for v in known.values() if v[1] > 0).most_common(1)
+    maj = maj[0][0] if maj else None
+    for (impl, size), (z, n, fn_) in sorted(known.items()):
+        chk.ob('occupancy-agreement', '%s: the leaf slot is overwritten under the same free-slot test as in the sibling map_to variants' % label((impl, size, 'map_to')),
+               n > 0 and z == maj, 'old slot bits known zero at the write: %s; siblings: %s' % (_fmt_set(z), _fmt_set(maj)), lab.I.fn[fn_]['loc'])
+
+
+def _fmt_set(z):
+    if z is None:
+        return 'none'
+    if len(z) == 64:
+        return 'all 64'
+    return '{%s}' % ','.join(str(i) for i in sorted(z))
 
 
 def label(key):
